@@ -55,11 +55,61 @@ Definition diff_validators (cur next : list upd) : list upd :=
                         | Some _ => []
                         end) next.
 
+(* ---- standalone -> consumer changeover (x/ccv/consumer/keeper/changeover.go, module.go EndBlock) ----
+   A validator / update is (key id, power).  [bonded] is the standalone staking module's bonded set in power order
+   (oracle: GetBondedValidatorsByPower); GetLastBondedValidatorsUtil keeps the first MaxValidators of it.  The Go map
+   initialUpdatesFlag is used for lookup only, so the returned slice is: the stored initial validator set in its stored
+   order, then one zero-power update per standalone validator whose key is not in it, in staking order. *)
+Definition has_key (k : Z) (l : list upd) : bool := existsb (fun x => ukey x =? k) l.
+Definition last_bonded (maxv : Z) (bonded : list upd) : list upd := firstn (Z.to_nat maxv) bonded.
+Definition changeover_updates (init standalone : list upd) : list upd :=
+  init ++ flat_map (fun s => if has_key (ukey s) init then [] else [(ukey s, 0)]) standalone.
+
+(* ApplyCCValidatorChanges on the cross-chain validator store (an association list with unique keys) *)
+Definition remove_key (k : Z) (m : list upd) : list upd := filter (fun x => negb (ukey x =? k)) m.
+Fixpoint cc_apply (changes : list upd) (m : list upd) : list upd :=
+  match changes with
+  | [] => m
+  | c :: t =>
+    match lookup (ukey c) m with
+    | Some _ => if upow c <? 1 then cc_apply t (remove_key (ukey c) m) else cc_apply t (map_set c m)
+    | None => if 0 <? upow c then cc_apply t (map_set c m) else cc_apply t m
+    end
+  end.
+
+(* what CometBFT does with the returned updates: power 0 removes the validator, any other power sets it *)
+Definition tm1 (m : list upd) (u : upd) : list upd :=
+  if upow u =? 0 then remove_key (ukey u) m else map_set u m.
+Definition tm_apply (ups : list upd) (m : list upd) : list upd := fold_left tm1 ups m.
+
+(* ChangeoverIsComplete for a previously standalone chain: FirstConsumerHeight = init genesis height + ValidatorUpdateDelay + 1 *)
+Definition changeover_complete (init_h h : Z) : bool := init_h + 2 <=? h.
+
+Fixpoint kinsert (u : upd) (l : list upd) : list upd :=
+  match l with
+  | [] => [u]
+  | x :: t => if ukey u <=? ukey x then u :: x :: t else x :: kinsert u t
+  end.
+Definition ksort (l : list upd) : list upd := fold_right kinsert [] l.
+
+(* the set the consensus engine ends up with must be the provider's initial set (last entry per key, zero = absent) *)
+Definition handed_over (init standalone out : list upd) : bool :=
+  forallb (fun k =>
+    match lookup k (tm_apply out standalone), lookup_last k init with
+    | None, None => true
+    | None, Some p => p =? 0
+    | Some q, Some p => (q =? p) && negb (p =? 0)
+    | Some _, None => false
+    end) (map ukey init ++ map ukey standalone ++ map ukey out).
+
 (* ---- wire interface ----
    input  = [tag, a, b]
      tag 0 (fn part):      a = current changes, b = new changes  -> [accumulate a b, diff_validators a b]
      tag 1 (replica part): a = list of per-replica digests (each a list of integers) -> [a's first element]
      tag 2 (lint part):    a = expected inventory -> a
+     tag 3 (changeover):   [3, init set, standalone bonded set, MaxValidators, init genesis height]
+                           -> [updates returned by the changeover EndBlock (in order), cross-chain validator store (by key),
+                               [PreCCV afterwards; ChangeoverIsComplete at heights h, h+1, h+2, h+3]]
    The replica and lint parts have no protocol content on the model side: the model states what must be
    observed (all replicas equal to the first; inventory as recorded). *)
 Definition run (t : tree) : tree :=
@@ -69,6 +119,13 @@ Definition run (t : tree) : tree :=
         of_pairs (diff_validators (to_pairs (tnth 1 t)) (to_pairs (tnth 2 t)))]
   else if tag =? 1 then
     TL (map (fun _ => tnth 0 (tnth 1 t)) (tlist (tnth 1 t)))
+  else if tag =? 3 then
+    let init := to_pairs (tnth 1 t) in
+    let sa := last_bonded (tz (tnth 3 t)) (to_pairs (tnth 2 t)) in
+    let h := tz (tnth 4 t) in
+    TL [of_pairs (changeover_updates init sa);
+        of_pairs (ksort (cc_apply init []));
+        of_zs (0 :: map (fun d => if changeover_complete h (h + d) then 1 else 0) [0; 1; 2; 3])]
   else tnth 1 t.
 
 Fixpoint tree_eqb (a b : tree) {struct a} : bool :=
@@ -101,5 +158,9 @@ Definition mon (t o : tree) : tree :=
                && Nat.eqb (length out) (length m) then [] else [1]))
   else if tag =? 1 then
     of_zs (if forallb (fun r => tree_eqb r (tnth 0 o)) (tlist o) then [] else [2])
+  else if tag =? 3 then
+    (* clause 4 = the updates returned at the changeover do not hand the consensus set over to the provider's initial set *)
+    of_zs (if handed_over (to_pairs (tnth 1 t)) (last_bonded (tz (tnth 3 t)) (to_pairs (tnth 2 t))) (to_pairs (tnth 0 o))
+           then [] else [4])
   else
     of_zs (if tree_eqb (tnth 1 t) o then [] else [3]).
